@@ -11,7 +11,9 @@ issuer id, version, public key, validity instants and every signer behaviour.
 
 The validity period: `Ndn.Cert.Issue.instants` / `validity` (derive_cert, sign_req, self_sign over the calendar
 model `Ndn.Calendar`: CPython's proleptic Gregorian ordinal arithmetic, `datetime + timedelta`, `replace(year=…)`,
-`astimezone(UTC)`), `fmtInstant` (`strftime('%Y%m%dT%H%M%S')`, years 1000..9999).
+`astimezone(UTC)`), `fmtInstant` (`strftime('%Y%m%dT%H%M%S')`, years 1000..9999).  The tzinfo of an aware start
+time is any function from wall-clock readings (and `fold`) to UTC offsets (`Calendar.Zone`): fixed-offset zones and
+zones whose offset changes (daylight saving) alike.
 -/
 namespace Ndn.C16
 open Ndn Ndn.Codec Ndn.Packet Ndn.Cert Ndn.Calendar
@@ -174,13 +176,13 @@ theorem addYears_spec (t : Instant) (k : Nat) (ht : t.valid) :
         ((ord2ymd t.ord).2.1 = 2 ∧ (ord2ymd t.ord).2.2 = 29 ∧ isLeap ((ord2ymd t.ord).1 + k) = false))) :=
   ⟨fun t' => addYears_ok_iff t t' k ht, fun e => addYears_error_iff t k e ht⟩
 
-/-- **toUtc_spec.** `astimezone(UTC)` of a datetime `o` minutes ahead of UTC is the valid instant with the same
-    microsecond designating the same moment (a naive datetime is taken as it is); the only error is
-    `OverflowError` (the UTC reading leaves the years 1..9999). -/
+/-- **toUtc_spec.** `astimezone(UTC)` of a datetime whose tzinfo reports the offset `o` seconds for it is the valid
+    instant with the same microsecond designating the same moment (a naive datetime is taken as it is); it raises
+    exactly when that moment lies outside the years 1..9999, and then `OverflowError`. -/
 theorem toUtc_spec (t : Instant) (off : Option Int) (ht : t.valid) :
     (∀ u, toUtc t off = .ok u ↔ u.valid ∧ u.abs = utcAbs t off ∧ u.us = t.us) ∧
-    (∀ e, toUtc t off = .error e → e = .overflowError) :=
-  ⟨fun u => toUtc_ok_iff t u off ht, fun e h => toUtc_error t off ht e h⟩
+    (∀ e, toUtc t off = .error e ↔ e = .overflowError ∧ ¬ representable (utcAbs t off)) :=
+  ⟨fun u => toUtc_ok_iff t u off ht, fun e => toUtc_error_iff t off ht e⟩
 
 /-! ### validity period = the requested instants -/
 
@@ -229,69 +231,168 @@ theorem utcPair_error (a : Instant) (ao : Option Int) (b : Instant) (bo : Option
     | error y => rw [h2] at h; cases h; exact toUtc_error b bo hb _ h2
     | ok e' => rw [h2] at h; cases h
 
-/-- **derive_instants.** `derive_cert(…, start_time, expire_sec)` with the start reading `start` (naive, or aware
-    and `o` minutes ahead of UTC) writes a validity period for the UTC instants `s`, `e` iff `s` is the requested
-    start moment, `e` is exactly `expire_sec` seconds later, and the intermediate wall-clock end
-    `start_time + timedelta(seconds=expire_sec)` stays within the years 1..9999; every failure is `OverflowError`. -/
-theorem derive_instants (start : Instant) (off : Option Int) (n : Int) (hst : start.valid) :
-    (∀ s e, (Issue.derive start off n).instants = .ok (s, e) ↔
-      (86400 ≤ start.abs + n ∧ start.abs + n < (maxOrdinal + 1) * 86400) ∧
-      s.valid ∧ s.abs = utcAbs start off ∧ s.us = start.us ∧
-      e.valid ∧ e.abs = utcAbs start off + n ∧ e.us = start.us) ∧
-    (∀ x, (Issue.derive start off n).instants = .error x → x = .overflowError) := by
-  refine ⟨fun s e => ?_, fun x h => ?_⟩
-  · simp only [Issue.instants, bind, Except.bind]
-    cases h1 : addSeconds start n with
+/-- the moment the `start_time` handed to `derive_cert` designates, in seconds since ordinal 0 on the UTC scale:
+    a naive reading is taken as UTC; an aware one is its wall-clock reading minus the offset its tzinfo — ANY
+    function of the reading and its `fold` — reports for that reading -/
+def startUtc (start : Instant) (fold : Bool) (zone : Option Zone) : Int :=
+  utcAbs start (zone.map (fun z => z start fold))
+
+theorem utc_offsets (off : Option Int) :
+    off.map (fun _ => (0 : Int)) = none ∨ off.map (fun _ => (0 : Int)) = some 0 := by
+  cases off <;> simp
+
+/-- `derive_cert` = convert the start to UTC, add the duration there; the second conversion in `new_cert` changes
+    nothing -/
+theorem derive_unfold (start : Instant) (fold : Bool) (zone : Option Zone) (n : Int) (hst : start.valid) :
+    (Issue.derive start fold zone n).instants =
+      (match toUtc start (zone.map (fun z => z start fold)) with
+       | .error x => .error x
+       | .ok s =>
+         match addSeconds s n with
+         | .error x => .error x
+         | .ok e => .ok (s, e)) := by
+  simp only [Issue.instants, bind, Except.bind]
+  cases h1 : toUtc start (zone.map fun z => z start fold) with
+  | error x => rfl
+  | ok s =>
+    have hs := ((toUtc_ok_iff start s _ hst).1 h1).1
+    simp only
+    cases h2 : addSeconds s n with
+    | error x => rfl
+    | ok e =>
+      have he := ((addSeconds_ok_iff s e n hs).1 h2).1
+      simp only
+      exact (utcPair_ok_iff s _ e _ s e).2 ⟨toUtc_id s hs _ (utc_offsets _), toUtc_id e he _ (utc_offsets _)⟩
+
+/-- **derive_instants.** `derive_cert(…, start_time, expire_sec)` — start reading `start` with `fold`, naive or
+    aware with ANY tzinfo `zone` (fixed offset or an offset that changes between readings, e.g. daylight saving) —
+    writes a validity period for the UTC instants `s`, `e` iff `s` is the moment the start time designates
+    (`start` minus the offset the zone reports for it) and `e` is exactly `expire_sec` seconds of elapsed time
+    later, whatever the zone reports for any other reading.  It raises iff one of these two moments lies outside
+    the years 1..9999, and then `OverflowError`. -/
+theorem derive_instants (start : Instant) (fold : Bool) (zone : Option Zone) (n : Int) (hst : start.valid) :
+    (∀ s e, (Issue.derive start fold zone n).instants = .ok (s, e) ↔
+      s.valid ∧ s.abs = startUtc start fold zone ∧ s.us = start.us ∧
+      e.valid ∧ e.abs = startUtc start fold zone + n ∧ e.us = start.us) ∧
+    (∀ x, (Issue.derive start fold zone n).instants = .error x ↔
+      x = .overflowError ∧
+        ¬ (representable (startUtc start fold zone) ∧ representable (startUtc start fold zone + n))) := by
+  rw [derive_unfold start fold zone n hst]
+  unfold startUtc
+  refine ⟨fun s e => ?_, fun x => ?_⟩
+  · cases h1 : toUtc start (zone.map fun z => z start fold) with
     | error y =>
-      have hy := addSeconds_error start n y h1
-      subst hy
-      have := (addSeconds_error_iff start n hst).1 h1
       simp only
       constructor
       · intro h; cases h
-      · rintro ⟨⟨r1, r2⟩, _⟩; omega
-    | ok el =>
-      obtain ⟨hel, hab, hus⟩ := (addSeconds_ok_iff start el n hst).1 h1
+      · rintro ⟨a, b, c, _⟩
+        rw [(toUtc_ok_iff start s _ hst).2 ⟨a, b, c⟩] at h1; cases h1
+    | ok s0 =>
+      obtain ⟨hs0, hab0, hus0⟩ := (toUtc_ok_iff start s0 _ hst).1 h1
       simp only
-      rw [utcPair_ok_iff start off el off, toUtc_ok_iff start s off hst, toUtc_ok_iff el e off hel]
-      have hu : utcAbs el off = utcAbs start off + n := by
-        cases off <;> simp only [utcAbs] <;> omega
-      rw [hu, hus]
-      have hr : 86400 ≤ start.abs + n ∧ start.abs + n < (maxOrdinal + 1) * 86400 := by
-        obtain ⟨a1, a2, a3, a4⟩ := hel
-        unfold Instant.abs maxOrdinal at *; omega
+      cases h2 : addSeconds s0 n with
+      | error y =>
+        simp only
+        constructor
+        · intro h; cases h
+        · rintro ⟨a, b, c, d, e', f⟩
+          have hs : s = s0 := by
+            have := (toUtc_ok_iff start s _ hst).2 ⟨a, b, c⟩
+            rw [h1] at this; cases this; rfl
+          subst hs
+          rw [(addSeconds_ok_iff s e n a).2 ⟨d, by omega, by omega⟩] at h2; cases h2
+      | ok e0 =>
+        obtain ⟨he0, hab1, hus1⟩ := (addSeconds_ok_iff s0 e0 n hs0).1 h2
+        simp only [Except.ok.injEq, Prod.mk.injEq]
+        constructor
+        · rintro ⟨rfl, rfl⟩; exact ⟨hs0, hab0, hus0, he0, by omega, by omega⟩
+        · rintro ⟨a, b, c, d, e', f⟩
+          have hs : s0 = s := by
+            have := (toUtc_ok_iff start s _ hst).2 ⟨a, b, c⟩
+            rw [h1] at this; cases this; rfl
+          subst hs
+          refine ⟨rfl, ?_⟩
+          have := (addSeconds_ok_iff s0 e n hs0).2 ⟨d, by omega, by omega⟩
+          rw [h2] at this; cases this; rfl
+  · cases h1 : toUtc start (zone.map fun z => z start fold) with
+    | error y =>
+      obtain ⟨hy, hr⟩ := (toUtc_error_iff start _ hst y).1 h1
+      simp only [Except.error.injEq]
       constructor
-      · rintro ⟨⟨a, b, c⟩, d, e', f⟩; exact ⟨hr, a, b, c, d, e', f⟩
-      · rintro ⟨_, a, b, c, d, e', f⟩; exact ⟨⟨a, b, c⟩, d, e', f⟩
-  · simp only [Issue.instants, bind, Except.bind] at h
-    cases h1 : addSeconds start n with
-    | error y => rw [h1] at h; cases h; exact addSeconds_error start n _ h1
-    | ok el =>
-      rw [h1] at h
-      exact utcPair_error start off el off hst ((addSeconds_ok_iff start el n hst).1 h1).1 x h
+      · rintro rfl; exact ⟨hy, fun h => hr h.1⟩
+      · rintro ⟨rfl, _⟩; exact hy
+    | ok s0 =>
+      obtain ⟨hs0, hab0, hus0⟩ := (toUtc_ok_iff start s0 _ hst).1 h1
+      have hr0 := valid_representable s0 hs0
+      simp only
+      cases h2 : addSeconds s0 n with
+      | error y =>
+        have hy := addSeconds_error s0 n y h2
+        subst hy
+        have hout := (addSeconds_error_iff s0 n hs0).1 h2
+        simp only [Except.error.injEq]
+        constructor
+        · rintro rfl
+          refine ⟨rfl, fun h => ?_⟩
+          have := h.2
+          unfold representable at this; omega
+        · rintro ⟨rfl, _⟩; rfl
+      | ok e0 =>
+        obtain ⟨he0, hab1, _⟩ := (addSeconds_ok_iff s0 e0 n hs0).1 h2
+        have hr1 := valid_representable e0 he0
+        simp only
+        constructor
+        · intro h; cases h
+        · rintro ⟨_, hn⟩
+          exfalso; apply hn
+          rw [← hab0]
+          exact ⟨hr0, by rw [← hab1]; exact hr1⟩
+
+/-- **derive_zone_independent.** Two tzinfos that report the same offset for the start reading give the same
+    validity period, whatever they report elsewhere: the duration is not measured on the wall clock. -/
+theorem derive_zone_independent (start : Instant) (fold : Bool) (z z' : Zone) (n : Int)
+    (h : z start fold = z' start fold) :
+    (Issue.derive start fold (some z) n).instants = (Issue.derive start fold (some z') n).instants := by
+  simp only [Issue.instants, Option.map, h]
 
 /-- **validity_encodes_requested_instants.** When `derive_cert` produces a validity period (NotBefore, NotAfter),
-    these are the `YYYYMMDDTHHMMSS` texts of the UTC instants `t` (the requested start, naive-as-UTC or aware with
-    offset `o`) and `t + expire_sec`, and — the text being injective — any pair of valid instants with these two
-    texts are the requested moments, to the second: the validity period encodes exactly the requested instants. -/
-theorem validity_encodes_requested_instants (start : Instant) (off : Option Int) (n : Int) (hst : start.valid)
-    (nb na : Bytes) (h : (Issue.derive start off n).validity = .ok (nb, na)) :
-    ∃ s e : Instant, s.valid ∧ e.valid ∧ s.abs = utcAbs start off ∧ e.abs = utcAbs start off + n ∧
+    these are the `YYYYMMDDTHHMMSS` texts of the UTC instants `t` (the moment the start time designates:
+    naive-as-UTC, or aware in ANY zone) and `t + expire_sec`, and — the text being injective — any pair of valid
+    instants with these two texts are the requested moments, to the second: the validity period encodes exactly
+    the requested instants, for every tzinfo. -/
+theorem validity_encodes_requested_instants (start : Instant) (fold : Bool) (zone : Option Zone) (n : Int)
+    (hst : start.valid) (nb na : Bytes) (h : (Issue.derive start fold zone n).validity = .ok (nb, na)) :
+    ∃ s e : Instant, s.valid ∧ e.valid ∧ s.abs = startUtc start fold zone ∧ e.abs = startUtc start fold zone + n ∧
       nb = fmtInstant s ∧ na = fmtInstant e ∧
       ∀ s' e' : Instant, s'.valid → e'.valid → fmtInstant s' = nb → fmtInstant e' = na →
-        s'.abs = utcAbs start off ∧ e'.abs = utcAbs start off + n := by
+        s'.abs = startUtc start fold zone ∧ e'.abs = startUtc start fold zone + n := by
   unfold Issue.validity at h
   simp only [bind, Except.bind, pure, Except.pure] at h
-  cases hi : (Issue.derive start off n).instants with
+  cases hi : (Issue.derive start fold zone n).instants with
   | error x => rw [hi] at h; cases h
   | ok se =>
     obtain ⟨s, e⟩ := se
     rw [hi] at h
     simp only [Except.ok.injEq, Prod.mk.injEq] at h
-    obtain ⟨_, hs, hsa, _, he, hea, _⟩ := ((derive_instants start off n hst).1 s e).1 hi
+    obtain ⟨hs, hsa, _, he, hea, _⟩ := ((derive_instants start fold zone n hst).1 s e).1 hi
     refine ⟨s, e, hs, he, hsa, hea, h.1.symm, h.2.symm, fun s' e' hs' he' e1 e2 => ⟨?_, ?_⟩⟩
     · rw [← hsa]; exact fmtInstant_abs_inj s' s hs' hs (by rw [e1, h.1])
     · rw [← hea]; exact fmtInstant_abs_inj e' e he' he (by rw [e2, h.2])
+
+/-- **validity_period_length.** The validity period `derive_cert` writes spans exactly `expire_sec` seconds of
+    elapsed time, for every tzinfo of the start time. -/
+theorem validity_period_length (start : Instant) (fold : Bool) (zone : Option Zone) (n : Int) (hst : start.valid)
+    (s e : Instant) (h : (Issue.derive start fold zone n).instants = .ok (s, e)) : e.abs - s.abs = n := by
+  obtain ⟨_, hsa, _, _, hea, _⟩ := ((derive_instants start fold zone n hst).1 s e).1 h
+  omega
+
+/-- the sum on the wall clock of the start time's zone (what `derive_cert` did before it converted the start to
+    UTC first): `end_time = start_time + timedelta(seconds=expire_sec)` keeps the tzinfo, and `new_cert` converts
+    each reading with the offset the zone reports for it — kept as a definition only to show that the theorems
+    above tell the two apart -/
+def wallClockSum (start : Instant) (fold : Bool) (z : Zone) (n : Int) : Except PyErr (Instant × Instant) := do
+  let e ← addSeconds start n
+  utcPair start (some (z start fold)) e (some (z e false))
 
 /-- **req_instants.** `sign_req` with the two clock readings `now1`, `now2` (UTC): NotBefore is `now2`, NotAfter
     exactly 10 days after `now1`; `OverflowError` iff that is after 9999-12-31. -/
@@ -443,8 +544,22 @@ example : ord2ymd maxOrdinal = (9999, 12, 31) ∧ ord2ymd 1 = (1, 1, 1) := by de
 example : fmtInstant epoch = [49, 57, 55, 48, 48, 49, 48, 49, 84, 48, 48, 48, 48, 48, 48] := by decide +kernel
 -- 2024-12-31T23:59:59 + 1 s = 2025-01-01T00:00:00; 23:30 at UTC+5:45 is 17:45 UTC; an hour before day 1 overflows
 example : addSeconds ⟨739251, 86399, 7⟩ 1 = .ok ⟨739252, 0, 7⟩ := by rfl
-example : toUtc ⟨739251, 84600, 0⟩ (some 345) = .ok ⟨739251, 63900, 0⟩ := by rfl
+example : toUtc ⟨739251, 84600, 0⟩ (some 20700) = .ok ⟨739251, 63900, 0⟩ := by rfl
 example : addSeconds ⟨1, 0, 0⟩ (-3600) = .error .overflowError := by rfl
+-- a zone whose offset changes: UTC-5 until the wall clock reads 02:00 on 2024-03-10 (ordinal 738955), UTC-4 after
+def springForward : Zone := fun w _ => if w.abs < 738955 * 86400 + 7200 then -18000 else -14400
+-- start 2024-03-10T01:00 in that zone (= 06:00Z), 7200 s: derive_cert writes 06:00Z .. 08:00Z, two hours of elapsed
+-- time; the sum on the wall clock (01:00 + 2 h = 03:00 at UTC-4) would have ended the period at 07:00Z
+example : (Issue.derive ⟨738955, 3600, 0⟩ false (some springForward) 7200).instants
+    = .ok (⟨738955, 21600, 0⟩, ⟨738955, 28800, 0⟩) := by rfl
+example : wallClockSum ⟨738955, 3600, 0⟩ false springForward 7200 = .ok (⟨738955, 21600, 0⟩, ⟨738955, 25200, 0⟩) := by rfl
+example : (Issue.derive ⟨738955, 3600, 0⟩ false (some springForward) 7200).validity
+    = .ok ("20240310T060000".toUTF8.toList, "20240310T080000".toUTF8.toList) := by decide +kernel
+-- a start at the very end of the calendar in a zone ahead of UTC: 9999-12-31T23:00+14:00 + 3600 s ends 10:00Z
+example : (Issue.derive ⟨maxOrdinal, 82800, 0⟩ false (some fun _ _ => 50400) 3600).instants
+    = .ok (⟨maxOrdinal, 32400, 0⟩, ⟨maxOrdinal, 36000, 0⟩) := by rfl
+-- the same reading taken as UTC: the end is past 9999-12-31T23:59:59
+example : (Issue.derive ⟨maxOrdinal, 82800, 0⟩ false none 3600).instants = .error .overflowError := by rfl
 -- self_sign on 29 February 2080: 2100 is not a leap year
 example : (Issue.self ⟨ymd2ord 2080 2 29, 0, 0⟩).instants = .error .valueError := by rfl
 example : (Issue.self ⟨ymd2ord 2024 2 29, 0, 0⟩).instants = .ok (epoch, ⟨ymd2ord 2044 2 29, 0, 0⟩) := by decide +kernel
